@@ -45,7 +45,7 @@ Definition scan (s : bytes) : tok * bytes * bytes :=
   match s with
   | [] => (TEof, [], [])
   | c :: r =>
-    if c =? 0 then (TEof, [], [])
+    if c =? 0 then (TEof, [], r)    (* a NUL reads as EOF, but the reader has only consumed the NUL *)
     else if c =? 58 then (TColon, [c], r)
     else if c =? 126 then (TTilde, [c], r)
     else if c =? 94 then (TCaret, [c], r)
